@@ -8,6 +8,7 @@ import random
 from hgsim import gen
 from hgsim.case import BuildError, fault_counts, fill_values, hist_digest, run_world, sim_stats
 from hgsim.driver import empty_result
+from hgsim.procs import SyncProc
 from hgsim.spec import iter_nodes
 from hgsim.util import canon, digest
 
@@ -19,7 +20,7 @@ RULE = (
     "invocation index<2) that occurs; EVERY such point is then injected as the failing one, one at a time (plus sampled pairs in one step), "
     "under run (raise and continue) and top-level map (raise and continue), SyncRunner and AsyncRunner under seeded schedules. "
     "Non-trivial = the injected failure actually fired; distinct = digest of (program shape, failure point, mode, completion order)."
-    ' Failure points include routing functions of gates (with and without a fallback target). Also: five kinds of injected exception (with/without arguments, TypeError with a call-mismatch text, KeyError, ValueError), explicit select of all data outputs with on_missing="error" on the failing runs, partial values of failed items of a top-level map compared between the runners (key presence), and a map in which exactly one item fails (fault conditioned on the input of that item): the FAILED result must sit at the position of that item under bounded concurrency and out-of-order completion.'
+    ' Failure points include routing functions of gates (with and without a fallback target). Also: five kinds of injected exception (with/without arguments, TypeError with a call-mismatch text, KeyError, ValueError; StopIteration from plain synchronous functions under the sync runner); an event processor attached to the failing runs, explicit select of all data outputs with on_missing="error" on the failing runs, partial values of failed items of a top-level map compared between the runners (key presence), and a map in which exactly one item fails (fault conditioned on the input of that item): the FAILED result must sit at the position of that item under bounded concurrency and out-of-order completion.'
 )
 ASSUMPTIONS = [
     "the state before the failing step equals the fault-free run's state before that step (checked differentially through the step tap)",
@@ -41,6 +42,7 @@ def gen_case(rng: random.Random, tier: str) -> dict:
         "max_iterations": rng.choice([None, None, 6, 10]) if g["seeds"] else None,
         "pair_seed": rng.randrange(1 << 30),
         "top_map": rng.random() < 0.3,
+        "with_processor": rng.random() < 0.3,  # an event processor is attached to the failing runs (building the error event must not mask the error)
         "explicit_select": rng.random() < 0.3,  # select=<all data outputs>, on_missing="error": must not change how failures surface
         "tier": tier,
         "only_points": None,
@@ -239,7 +241,14 @@ def run_case(doc: dict) -> dict:
         for mode, eh, cfg in variants:
             label = f"{mode}_{eh}"
             v_mark = len(viol)
-            w = run_world(g, values, mode=mode, cfg=cfg, faults=copy.deepcopy(faults), run_kwargs=dict(kw0, error_handling=eh, **kwsel))
+            vfaults = copy.deepcopy(faults)
+            if mode == "sync" and (pi + doc["pair_seed"]) % 4 == 3:
+                # a plain synchronous function raising StopIteration (not inside generator nodes, where Python turns it into RuntimeError)
+                for f in vfaults:
+                    if not (ref["rt"].node_specs.get(f["node"]) or {}).get("gen"):
+                        f["exc"] = "stopiteration"
+            pf = (lambda rt: [SyncProc(rt, "obs")]) if doc.get("with_processor") else None
+            w = run_world(g, values, mode=mode, cfg=cfg, faults=vfaults, run_kwargs=dict(kw0, error_handling=eh, **kwsel), processors_factory=pf)
             rts.append(w["rt"])
             res["runs"] += 1
             sim_stats(res, w["out"])
@@ -326,6 +335,8 @@ def _top_map(doc, g, values, points, rng, res, rts, viol, kw0) -> None:
     for mode, cfg in (("sync", None), ("async", doc["async"][0])):
         for eh in ("raise", "continue"):
             faults = [{"kind": "raise", "node": n, "inv": i, "fid": 0, "when": "before"}]
+            if mode == "sync" and doc["pair_seed"] % 3 == 0 and not (rts[0].node_specs.get(n) or {}).get("gen"):
+                faults[0]["exc"] = "stopiteration"
             kw = {"map_over": mp, "error_handling": eh}
             if doc.get("explicit_select"):
                 emits0 = _emit_names(g)
